@@ -63,6 +63,7 @@ def plan_message_faults(base, clean, reading, tier, rng, directed=True):
     if directed:
         out.extend(faults.directed_substitutions(sp, enc, clean, hexb, all_values=(tier == "thorough")))
     out.extend(faults.numeral_faults(sp, enc))
+    out.extend(faults.typed_token_faults(sp, enc))
     out.extend(faults.splice_faults(clean, sp, enc))
     out.extend(faults.consistent_edits(clean, sp, enc, cfg, hexb, rng))
     nrand = 40 if tier == "quick" else 200
